@@ -490,7 +490,7 @@ func init() {
 		"non-trivial = the file has at least two @rx operands; distinct by (file, target, regex)"
 	properties["C11"] = &Property{ID: "C11", LeanMods: []string{"CrsProps.C11"}, Corr: "K7 (updateRegex, readCurrentRegex vs Crs.Update), K10 (update binary)", Rule: rule,
 		Gen: func(r *rand.Rand, tier string, env *Env) []Case { return genUpdateCases(r, tier, "C11") }}
-	properties["C12"] = &Property{ID: "C12", LeanMods: []string{"CrsProps.C12"}, Corr: "K7, K10 (update/compare binaries: histories update→compare, update→update, edit-one-byte→compare)", Rule: rule,
+	properties["C12"] = &Property{ID: "C12", LeanMods: []string{"CrsProps.C12", "CrsProps.C12Cli"}, Corr: "K7, K10 (update/compare binaries: histories update→compare, update→update, edit-one-byte→compare)", Rule: rule,
 		Gen:    func(r *rand.Rand, tier string, env *Env) []Case { return genUpdateCases(r, tier, "C12") },
 		Assume: []string{"known finding D09 (bare quote after an escaped backslash) makes the stored operand end early"}}
 }
